@@ -623,6 +623,10 @@ static int32_t makeHsRecord(ssl_t *ssl,
             return rc;
         }
         out->end = c;
+        if (msgStart == NULL)
+        {
+            break; /* Empty message body: a single record */
+        }
         msgStart += fragLen;
         fragLen = min(ssl->maxPtFrag, msgEnd - msgStart);
         fragId++;
